@@ -366,9 +366,6 @@ func zipLeaves(a, b *Value, f func(x, y *Term) *Term) (*Value, bool) {
 	}
 	switch a.K {
 	case KPrim:
-		if a.T.S != b.T.S {
-			return nil, false
-		}
 		return &Value{K: KPrim, Typ: a.Typ, T: f(a.T, b.T)}, true
 	case KStruct, KTuple:
 		if len(a.Fields) != len(b.Fields) {
@@ -384,9 +381,6 @@ func zipLeaves(a, b *Value, f func(x, y *Term) *Term) (*Value, bool) {
 		}
 		return n, true
 	case KSlice:
-		if a.Len.S != b.Len.S {
-			return nil, false
-		}
 		// concrete element lists are authoritative when present (Len == len(Conc))
 		if a.Conc != nil && b.Conc != nil && len(a.Conc) == len(b.Conc) {
 			n := &Value{K: KSlice, Typ: a.Typ, Len: a.Len, Conc: []*Value{}}
@@ -602,22 +596,30 @@ func iteV(c *Term, a, b *Value) (*Value, bool) {
 	if a == b {
 		return a, true
 	}
-	return zipLeaves(a, b, func(x, y *Term) *Term {
+	bad := false
+	v, ok := zipLeaves(a, b, func(x, y *Term) *Term {
 		if x.S != y.S {
-			panic(fmt.Sprintf("iteV sort mismatch %s / %s", x.S, y.S))
+			bad = true
+			return x
 		}
 		return Ite(c, x, y)
 	})
+	return v, ok && !bad
 }
 
 // eqV is structural equality of two values (conjunction over leaves).
 func eqV(a, b *Value) (*Term, bool) {
 	acc := True
+	bad := false
 	_, ok := zipLeaves(inlineForStore(a), inlineForStore(b), func(x, y *Term) *Term {
+		if x.S != y.S {
+			bad = true
+			return x
+		}
 		acc = And(acc, Eq(x, y))
 		return x
 	})
-	return acc, ok
+	return acc, ok && !bad
 }
 
 func (v *Value) String() string {
@@ -659,3 +661,57 @@ func (v *Value) field(name string) *Value {
 }
 
 func prim(t *Term, typ types.Type) *Value { return &Value{K: KPrim, T: t, Typ: typ} }
+
+// shapeDiff explains where two values differ in shape (for diagnostics).
+func shapeDiff(a, b *Value, path string) string {
+	if a == nil || b == nil {
+		if a != b {
+			return path + ": nil vs non-nil"
+		}
+		return ""
+	}
+	if a.K != b.K {
+		return fmt.Sprintf("%s: %s vs %s", path, a.K, b.K)
+	}
+	switch a.K {
+	case KStruct, KTuple:
+		if len(a.Fields) != len(b.Fields) {
+			return path + ": field count"
+		}
+		for i := range a.Fields {
+			if d := shapeDiff(a.Fields[i], b.Fields[i], fmt.Sprintf("%s.%d", path, i)); d != "" {
+				return d
+			}
+		}
+	case KSlice:
+		if a.Conc != nil && b.Conc != nil && len(a.Conc) == len(b.Conc) {
+			for i := range a.Conc {
+				if d := shapeDiff(a.Conc[i], b.Conc[i], fmt.Sprintf("%s[%d]", path, i)); d != "" {
+					return d
+				}
+			}
+			return ""
+		}
+		return shapeDiff(sliceElem(a), sliceElem(b), path+"[]")
+	case KOpt:
+		return shapeDiff(a.Inl, b.Inl, path+"*")
+	case KPtr:
+		if a.Cell != b.Cell {
+			return path + ": pointers to different cells"
+		}
+	case KBytes:
+		if a.B != nil && b.B != nil && a.B.Kind != b.B.Kind {
+			return path + ": bytes " + a.B.Kind + " vs " + b.B.Kind
+		}
+	case KPrim:
+		if a.T.S != b.T.S {
+			return path + ": sorts " + a.T.S.String() + " vs " + b.T.S.String()
+		}
+	}
+	return ""
+}
+
+// freshLike builds an unconstrained value of type t (no typing facts).
+func freshLike(t types.Type, name string) *Value {
+	return buildValue(t, name, nil, func(path string, srt *Sort, lt types.Type) *Term { return Fresh(path, srt) }, 0)
+}
